@@ -357,7 +357,7 @@ func TestC04_Exhaustive(t *testing.T) {
 // The deposit path that relies on the proof verification: position and proof
 // mutations only, decided by the deposit oracle (shared with C03).
 func TestC04_DepositSlice(t *testing.T) {
-	posMuts := []int{mutProofTrunc, mutProofExtend, mutProofSwap, mutProofBitFlip, mutPosNeighbour, mutPosAlias, mutPosRandom, mutDupMirror, mutCoinbaseLater, mutCoinbaseLater}
+	posMuts := []int{mutProofTrunc, mutProofExtend, mutProofSwap, mutProofBitFlip, mutPosNeighbour, mutPosAlias, mutPosRandom, mutDupMirror, mutCoinbaseLater, mutCoinbaseLater, mutTwinBadProof, mutTwinBadProof}
 	RunProp(t, Prop[DepositCase]{
 		ID: "C04", Name: "deposit-slice", Quick: 400, Thor: 12_000,
 		Gen: func(t *rapid.T) DepositCase {
@@ -379,7 +379,7 @@ func TestC04_DepositSlice(t *testing.T) {
 			return c
 		},
 		Run:  runDepositHandler,
-		Rule: "the deposit path that relies on the verification: model blocks (1-33 transactions, coinbase deposits below and above the maturity depth) with the claimed position and the proof mutated (neighbour, alias p+k*2^depth, random position, truncated/extended/permuted/bit-flipped proof, the same deposit under its mirror position, the block's immature coinbase paying the same script as a later item of the batch) through the registered NewDeposits handler; oracle = deposit oracle of C03 (a coinbase presented under another position must be rejected)",
+		Rule: "the deposit path that relies on the verification: model blocks (1-33 transactions, coinbase deposits below and above the maturity depth) with the claimed position and the proof mutated (neighbour, alias p+k*2^depth, random position, truncated/extended/permuted/bit-flipped proof, the same deposit under its mirror position, the block's immature coinbase paying the same script as a later item of the batch, the transaction's second deposit output with a damaged proof or alias position right after the first was verified) through the registered NewDeposits handler; oracle = deposit oracle of C03 (a coinbase presented under another position must be rejected)",
 	})
 }
 
